@@ -1,4 +1,5 @@
 import QsmtpModel.Netio
+import QsmtpModel.DataFraming
 
 namespace QsmtpModel.Netio
 open QsmtpModel
@@ -463,3 +464,77 @@ theorem loopLong_spec (pre tail : List Byte) (hpre : LF ∉ pre) :
       rw [this, show pre ++ LF :: tail = (pre ++ [LF]) ++ tail by simp, List.drop_left]
 
 end QsmtpModel.Netio
+
+namespace QsmtpModel.DataFraming
+open QsmtpModel QsmtpModel.Netio
+
+/-- once a reader error occurred the message can no longer be queued -/
+theorem dataPhase_queued (fuel : Nat) : ∀ (inn : List Byte) (src : Src) (dr : Bool) (acc : List (List Byte)) (errs : Nat)
+    (le : Bool) (first : Option Errno),
+    (dataPhase inn src dr acc errs le first fuel).verdict = .queued →
+      dr = false ∧ (dataPhase inn src dr acc errs le first fuel).errors = errs := by
+  induction fuel with
+  | zero => intro inn src dr acc errs le first h; simp [dataPhase] at h
+  | succ f ih =>
+    intro inn src dr acc errs le first h
+    unfold dataPhase at h ⊢
+    generalize netRead true inn src = r at h ⊢
+    obtain ⟨rd, inn', src'⟩ := r
+    cases rd with
+    | die e => simp at h
+    | err e =>
+      simp only at h ⊢
+      have := ih inn' src' true acc (errs + 1) true _ h
+      exact absurd this.1 (by simp)
+    | line l =>
+      simp only at h ⊢
+      split at h
+      · rename_i hl
+        simp only [hl, if_true]
+        cases dr <;> simp_all
+      · rename_i hl
+        simp only [hl, if_false]
+        exact ih inn' src' dr _ errs false first h
+
+/-- a payload of well-formed lines followed by the terminator: queued, with exactly these lines, for
+every state of the look-ahead buffer and every cut schedule; what follows is left untouched -/
+theorem dataPhase_wf (ls : List (List Byte)) (hwf : ∀ l ∈ ls, WfLine l) (hnd : ∀ l ∈ ls, l ≠ [DOT]) (tail : List Byte) :
+    ∀ (fuel : Nat) (inn : List Byte) (src : Src) (acc : List (List Byte)) (first : Option Errno) (le : Bool),
+      inn ++ src.rest = wire (ls ++ [[DOT]]) ++ tail → ls.length < fuel →
+      ∃ inn' src', dataPhase inn src false acc 0 le first fuel =
+          { verdict := .queued, lines := acc ++ ls, inn := inn', src := src', errors := 0, firstErr := first,
+            termAfterError := if ls = [] then le else false }
+        ∧ inn' ++ src'.rest = tail := by
+  have hdot : WfLine [DOT] := ⟨by decide, by decide, by decide⟩
+  induction ls with
+  | nil =>
+    intro fuel inn src acc first le h hf
+    cases fuel with
+    | zero => simp at hf
+    | succ f =>
+      have h' : inn ++ src.rest = [DOT] ++ CR :: LF :: tail := by simpa [wire] using h
+      obtain ⟨inn', src', hr, hrest⟩ := netRead_wf true [DOT] tail inn src hdot h'
+      refine ⟨inn', src', ?_, hrest⟩
+      unfold dataPhase
+      rw [hr]
+      simp
+  | cons l ls ih =>
+    intro fuel inn src acc first le h hf
+    cases fuel with
+    | zero => simp at hf
+    | succ f =>
+      have hw : WfLine l := hwf l List.mem_cons_self
+      have h' : inn ++ src.rest = l ++ CR :: LF :: (wire (ls ++ [[DOT]]) ++ tail) := by
+        rw [h]; simp [wire]
+      obtain ⟨inn1, src1, hr, hrest⟩ := netRead_wf true l _ inn src hw h'
+      obtain ⟨inn', src', hd, hfin⟩ := ih (fun x hx => hwf x (List.mem_cons_of_mem _ hx))
+        (fun x hx => hnd x (List.mem_cons_of_mem _ hx)) f inn1 src1 (acc ++ [l]) first false hrest (by simp at hf; omega)
+      refine ⟨inn', src', ?_, hfin⟩
+      unfold dataPhase
+      rw [hr]
+      have hne : l ≠ [DOT] := hnd l List.mem_cons_self
+      simp only [hne, if_false, Bool.false_eq_true]
+      rw [hd]
+      simp
+
+end QsmtpModel.DataFraming
